@@ -1655,7 +1655,12 @@ class NumberOrderedForm(Operator):
                 continue
 
             # Convert the coefficient to a polynomial and extract the generators
-            poly = sympy.poly(coeff)
+            try:
+                poly = sympy.poly(coeff)
+            except sympy.polys.polyerrors.GeneratorsNeeded:
+                # The coefficient is a constant in disguise, e.g. I*n + I*(1 - n)
+                new_terms[powers] = coeff.expand()
+                continue
             number_gens = tuple(
                 gen for gen in poly.gens if gen in self._number_operator_placeholders
             )
